@@ -4,14 +4,14 @@ From SC Require Import Lib.Prelude Model.SwapPop Model.RegCommon Model.RegBinder
   Model.RegCTI Model.RegKeys Model.RegIRS Model.RegSmall Model.RegSA.
 
 Inductive trace :=
-| TrBinder (bs max : N) (pre : list addr) (t : list (ev tb_call unit tb_query tb_ans))
-| TrDocs (bs max maxuri : N) (pre : list dentry) (t : list (ev dm_call unit dm_query dm_ans))
-| TrCTI (maxt maxi : N) (t : list (ev cti_call unit cti_query cti_ans))
-| TrKeys (maxk maxr : N) (t : list (ev ck_call unit ck_query ck_ans))
-| TrIRS (maxc maxm maxl : N) (t : list (ev irs_call unit irs_query irs_ans))
-| TrCM (max : N) (t : list (ev cm_call unit cm_query cm_ans))
-| TrIC (t : list (ev ic_call (option cid) ic_query ic_ans))
-| TrSA (maxr maxs maxp now : N) (t : list (ev sa_call (option rule) sa_query sa_ans)).
+| TrBinder (bs max : N) (pre : list addr) (t : list (ev (tcall tb_call) unit tb_query tb_ans))
+| TrDocs (bs max maxuri : N) (pre : list dentry) (t : list (ev (tcall dm_call) unit dm_query dm_ans))
+| TrCTI (maxt maxi : N) (t : list (ev (tcall cti_call) unit cti_query cti_ans))
+| TrKeys (maxk maxr : N) (t : list (ev (tcall ck_call) unit ck_query ck_ans))
+| TrIRS (maxc maxm maxl : N) (t : list (ev (tcall irs_call) unit irs_query irs_ans))
+| TrCM (max : N) (t : list (ev (tcall cm_call) unit cm_query cm_ans))
+| TrIC (t : list (ev (tcall ic_call) (option cid) ic_query ic_ans))
+| TrSA (maxr maxs maxp now : N) (t : list (ev (tcall sa_call) (option rule) sa_query sa_ans)).
 
 Definition tb_cfg_of (bs max : N) : tb_cfg := {| tb_bs := N.to_nat bs; tb_max := N.to_nat max |}.
 Definition dm_cfg_of (bs max maxuri : N) : dm_cfg :=
@@ -28,30 +28,40 @@ Definition sa_cfg_of (maxr maxs maxp now : N) : sa_cfg :=
 Definition ocid_eqb : option cid -> option cid -> bool := option_eqb cid_eqb.
 Definition orule_eqb : option rule -> option rule -> bool := option_eqb rule_eqb.
 
+(* model steps lifted to traces with [Advance] steps; only the smart-account model reads the
+   ledger sequence number (valid_until checks) *)
+Definition tb_lstep (c : tb_cfg) := lstep (fun _ : N => tb_step c) tt.
+Definition dm_lstep (c : dm_cfg) := lstep (fun _ : N => dm_step c) tt.
+Definition cti_lstep (c : cti_cfg) := lstep (fun _ : N => cti_step c) tt.
+Definition ck_lstep (c : ck_cfg) := lstep (fun _ : N => ck_step c) tt.
+Definition irs_lstep (c : irs_cfg) := lstep (fun _ : N => irs_step c) tt.
+Definition cm_lstep (c : cm_cfg) := lstep (fun _ : N => cm_step c) tt.
+Definition ic_lstep := lstep (fun _ : N => ic_step) (@None cid).
+Definition sa_lstep (c : sa_cfg) := lstep (fun now : N => sa_step (sa_with_now c now)) (@None rule).
+
 (* model vs implementation: index of the first differing event *)
 Definition diff (t : trace) : N :=
   match t with
   | TrBinder bs max pre evs =>
       let c := tb_cfg_of bs max in
-      if tb_pre_ok c pre then replay (tb_step c) (tb_answer c) unit_eqb tb_ans_eqb (tb_start c pre) evs 0%N
+      if tb_pre_ok c pre then replay (tb_lstep c) (lans (tb_answer c)) unit_eqb tb_ans_eqb (tb_start c pre, 0%N) evs 0%N
       else 1%N
   | TrDocs bs max mu pre evs =>
       let c := dm_cfg_of bs max mu in
-      if dm_pre_ok c pre then replay (dm_step c) (dm_answer c) unit_eqb dm_ans_eqb (dm_start c pre) evs 0%N
+      if dm_pre_ok c pre then replay (dm_lstep c) (lans (dm_answer c)) unit_eqb dm_ans_eqb (dm_start c pre, 0%N) evs 0%N
       else 1%N
   | TrCTI mt mi evs =>
-      let c := cti_cfg_of mt mi in replay (cti_step c) cti_answer unit_eqb cti_ans_eqb cti_init evs 0%N
+      let c := cti_cfg_of mt mi in replay (cti_lstep c) (lans cti_answer) unit_eqb cti_ans_eqb (cti_init, 0%N) evs 0%N
   | TrKeys mk mr evs =>
-      let c := ck_cfg_of mk mr in replay (ck_step c) ck_answer unit_eqb ck_ans_eqb ck_init evs 0%N
+      let c := ck_cfg_of mk mr in replay (ck_lstep c) (lans ck_answer) unit_eqb ck_ans_eqb (ck_init, 0%N) evs 0%N
   | TrIRS mc mm ml evs =>
-      let c := irs_cfg_of mc mm ml in replay (irs_step c) irs_answer unit_eqb irs_ans_eqb irs_init evs 0%N
+      let c := irs_cfg_of mc mm ml in replay (irs_lstep c) (lans irs_answer) unit_eqb irs_ans_eqb (irs_init, 0%N) evs 0%N
   | TrCM mx evs =>
-      let c := cm_cfg_of mx in replay (cm_step c) cm_answer unit_eqb cm_ans_eqb cm_init evs 0%N
-  | TrIC evs => replay ic_step ic_answer ocid_eqb ic_ans_eqb ic_init evs 0%N
+      let c := cm_cfg_of mx in replay (cm_lstep c) (lans cm_answer) unit_eqb cm_ans_eqb (cm_init, 0%N) evs 0%N
+  | TrIC evs => replay ic_lstep (lans ic_answer) ocid_eqb ic_ans_eqb (ic_init, 0%N) evs 0%N
   | TrSA mr ms mp now evs =>
-      let c := sa_cfg_of mr ms mp now in replay (sa_step c) sa_answer orule_eqb sa_ans_eqb sa_init evs 0%N
+      let c := sa_cfg_of mr ms mp now in replay (sa_lstep c) (lans sa_answer) orule_eqb sa_ans_eqb (sa_init, now) evs 0%N
   end.
-
 
 (* ========================================================================= *)
 (* The monitors: the property as a boolean over the implementation's          *)
@@ -101,7 +111,7 @@ Definition tb_pairs (qas : list (tb_query * tb_ans)) : list (N * addr) :=
                       | _ => []
                       end) qas.
 Definition tb_cross (a : list addr) (qas : list (tb_query * tb_ans)) : bool := injb N.eqb (tb_pairs qas).
-Definition tb_mon (c : tb_cfg) := mon_of (spec_unit (tb_spec c)) tb_chk tb_cross.
+Definition tb_mon (c : tb_cfg) := lmon (fun _ : N => spec_unit (tb_spec c)) tb_chk tb_cross.
 
 (* ---------------- 2. documents: a map name -> document ---------------- *)
 Definition dm_spec (c : dm_cfg) (a : list dentry) (k : dm_call) : res (list dentry) :=
@@ -136,7 +146,7 @@ Definition dm_cross (c : dm_cfg) (a : list dentry) (qas : list (dm_query * dm_an
    let m := length bs in
    if list_eqb N.eqb (map fst bs) (map N.of_nat (seq 0 m)) && (length a <=? m * dm_bs c)
    then enumb N.eqb (map fst (flat_map snd bs)) (map fst a) else true).
-Definition dm_mon (c : dm_cfg) := mon_of (spec_unit (dm_spec c)) dm_chk (dm_cross c).
+Definition dm_mon (c : dm_cfg) := lmon (fun _ : N => spec_unit (dm_spec c)) dm_chk (dm_cross c).
 
 (* ---------------- 3. claim topics and issuers: two sets and one relation ---------------- *)
 Record cti_ref := { rT : list topic;                   (* the claim topics *)
@@ -198,7 +208,7 @@ Definition cti_chk (a : cti_ref) (qa : cti_query * cti_ans) : bool :=
   | _ => false
   end.
 Definition cti_mon (c : cti_cfg) :=
-  mon_of (spec_unit (cti_spec c)) cti_chk (fun _ _ => true).
+  lmon (fun _ : N => spec_unit (cti_spec c)) cti_chk (fun _ _ => true).
 
 (* ---------------- 4. claim-issuer keys: a set of (key, topic, registry) triples ---------------- *)
 Notation ktriple := (skey * N * addr)%type (only parsing).
@@ -248,7 +258,7 @@ Definition ck_chk (a : list ktriple) (qa : ck_query * ck_ans) : bool :=
       Bool.eqb b (existsb (fun x => N.eqb (kt_reg x) r) (pairs_of a k))
   | _ => false
   end.
-Definition ck_mon (c : ck_cfg) := mon_of (spec_unit (ck_spec c)) ck_chk (fun _ _ => true).
+Definition ck_mon (c : ck_cfg) := lmon (fun _ : N => spec_unit (ck_spec c)) ck_chk (fun _ _ => true).
 
 (* ---------------- 5. identity registry: a map account -> (identity, profile) and the
    recovery links old -> new ---------------- *)
@@ -317,7 +327,7 @@ Definition irs_chk (a : irs_ref) (qa : irs_query * irs_ans) : bool :=
       && (match aget N.eqb x (rV a) with Some _ => negb (ahas N.eqb x (rM a)) | None => true end)
   | _ => false
   end.
-Definition irs_mon (c : irs_cfg) := mon_of (spec_unit (irs_spec c)) irs_chk (fun _ _ => true).
+Definition irs_mon (c : irs_cfg) := lmon (fun _ : N => spec_unit (irs_spec c)) irs_chk (fun _ _ => true).
 
 (* ---------------- 6. compliance modules: one set of modules per hook ---------------- *)
 Definition cm_spec (c : cm_cfg) (a : cm_state) (k : cm_call) : res cm_state :=
@@ -334,7 +344,7 @@ Definition cm_chk (a : cm_state) (qa : cm_query * cm_ans) : bool :=
   | (MqIsRegistered h m, MaBool b) => Bool.eqb b (memb N.eqb m (cm_modules a h))
   | _ => false
   end.
-Definition cm_mon (c : cm_cfg) := mon_of (spec_unit (cm_spec c)) cm_chk (fun _ _ => true).
+Definition cm_mon (c : cm_cfg) := lmon (fun _ : N => spec_unit (cm_spec c)) cm_chk (fun _ _ => true).
 
 (* ---------------- 7. identity claims: a map claim id -> claim ---------------- *)
 Definition ic_spec (a : list (cid * claim)) (k : ic_call) (o : res (option cid)) : option (list (cid * claim)) :=
@@ -353,7 +363,7 @@ Definition ic_chk (a : list (cid * claim)) (qa : ic_query * ic_ans) : bool :=
       enumb cid_eqb l (map fst (filter (fun p => N.eqb (cl_topic (snd p)) t) a))
   | _ => false
   end.
-Definition ic_mon := mon_of ic_spec ic_chk (fun _ _ => true).
+Definition ic_mon := lmon (fun _ : N => ic_spec) ic_chk (fun _ _ => true).
 
 (* ---------------- 8. smart-account context rules: a map id -> rule; ids never reused ---------------- *)
 Record sa_ref := { rRules : list rule;      (* the live rules *)
@@ -485,21 +495,21 @@ Definition sa_chk (a : sa_ref) (qa : sa_query * sa_ans) : bool :=
   | (SqCount, SaNat n) => N.eqb n (N.of_nat (length (rRules a)))
   | _ => false
   end.
-Definition sa_mon (c : sa_cfg) := mon_of (sa_spec c) sa_chk (fun _ _ => true).
+Definition sa_mon (c : sa_cfg) := lmon (fun now : N => sa_spec (sa_with_now c now)) sa_chk (fun _ _ => true).
 
 (* ---------------- the monitor of a trace ---------------- *)
 Definition monitor (t : trace) : N :=
   match t with
   | TrBinder bs max pre evs =>
-      let c := tb_cfg_of bs max in if tb_pre_ok c pre then mon_run (tb_mon c) pre evs 0%N else 1%N
+      let c := tb_cfg_of bs max in if tb_pre_ok c pre then mon_run (tb_mon c) (pre, 0%N) evs 0%N else 1%N
   | TrDocs bs max mu pre evs =>
-      let c := dm_cfg_of bs max mu in if dm_pre_ok c pre then mon_run (dm_mon c) pre evs 0%N else 1%N
-  | TrCTI mt mi evs => mon_run (cti_mon (cti_cfg_of mt mi)) cti_ref0 evs 0%N
-  | TrKeys mk mr evs => mon_run (ck_mon (ck_cfg_of mk mr)) [] evs 0%N
-  | TrIRS mc mm ml evs => mon_run (irs_mon (irs_cfg_of mc mm ml)) irs_ref0 evs 0%N
-  | TrCM mx evs => mon_run (cm_mon (cm_cfg_of mx)) cm_init evs 0%N
-  | TrIC evs => mon_run ic_mon [] evs 0%N
-  | TrSA mr ms mp now evs => mon_run (sa_mon (sa_cfg_of mr ms mp now)) sa_ref0 evs 0%N
+      let c := dm_cfg_of bs max mu in if dm_pre_ok c pre then mon_run (dm_mon c) (pre, 0%N) evs 0%N else 1%N
+  | TrCTI mt mi evs => mon_run (cti_mon (cti_cfg_of mt mi)) (cti_ref0, 0%N) evs 0%N
+  | TrKeys mk mr evs => mon_run (ck_mon (ck_cfg_of mk mr)) ([], 0%N) evs 0%N
+  | TrIRS mc mm ml evs => mon_run (irs_mon (irs_cfg_of mc mm ml)) (irs_ref0, 0%N) evs 0%N
+  | TrCM mx evs => mon_run (cm_mon (cm_cfg_of mx)) (cm_init, 0%N) evs 0%N
+  | TrIC evs => mon_run ic_mon ([], 0%N) evs 0%N
+  | TrSA mr ms mp now evs => mon_run (sa_mon (sa_cfg_of mr ms mp now)) (sa_ref0, now) evs 0%N
   end.
 
 Definition check (t : trace) : verdict := (diff t, monitor t, 0%N).
@@ -509,27 +519,28 @@ Local Close Scope nat_scope.
 (* ---- the traces the models themselves produce (for the theorem "the monitor accepts
    every run of the model") ---- *)
 Inductive calls :=
-| CsBinder (bs max : N) (pre : list addr) (cs : list (tb_call * list tb_query))
-| CsDocs (bs max maxuri : N) (pre : list dentry) (cs : list (dm_call * list dm_query))
-| CsCTI (maxt maxi : N) (cs : list (cti_call * list cti_query))
-| CsKeys (maxk maxr : N) (cs : list (ck_call * list ck_query))
-| CsIRS (maxc maxm maxl : N) (cs : list (irs_call * list irs_query))
-| CsCM (max : N) (cs : list (cm_call * list cm_query))
-| CsIC (cs : list (ic_call * list ic_query))
-| CsSA (maxr maxs maxp now : N) (cs : list (sa_call * list sa_query)).
+| CsBinder (bs max : N) (pre : list addr) (cs : list (tcall tb_call * list tb_query))
+| CsDocs (bs max maxuri : N) (pre : list dentry) (cs : list (tcall dm_call * list dm_query))
+| CsCTI (maxt maxi : N) (cs : list (tcall cti_call * list cti_query))
+| CsKeys (maxk maxr : N) (cs : list (tcall ck_call * list ck_query))
+| CsIRS (maxc maxm maxl : N) (cs : list (tcall irs_call * list irs_query))
+| CsCM (max : N) (cs : list (tcall cm_call * list cm_query))
+| CsIC (cs : list (tcall ic_call * list ic_query))
+| CsSA (maxr maxs maxp now : N) (cs : list (tcall sa_call * list sa_query)).
 
 Definition observe_model (k : calls) : trace :=
   match k with
   | CsBinder bs max pre cs =>
-      let c := tb_cfg_of bs max in TrBinder bs max pre (model_trace (tb_step c) (tb_answer c) (tb_start c pre) cs)
+      let c := tb_cfg_of bs max in TrBinder bs max pre (model_trace (tb_lstep c) (lans (tb_answer c)) (tb_start c pre, 0%N) cs)
   | CsDocs bs max mu pre cs =>
-      let c := dm_cfg_of bs max mu in TrDocs bs max mu pre (model_trace (dm_step c) (dm_answer c) (dm_start c pre) cs)
-  | CsCTI mt mi cs => TrCTI mt mi (model_trace (cti_step (cti_cfg_of mt mi)) cti_answer cti_init cs)
-  | CsKeys mk mr cs => TrKeys mk mr (model_trace (ck_step (ck_cfg_of mk mr)) ck_answer ck_init cs)
-  | CsIRS mc mm ml cs => TrIRS mc mm ml (model_trace (irs_step (irs_cfg_of mc mm ml)) irs_answer irs_init cs)
-  | CsCM mx cs => TrCM mx (model_trace (cm_step (cm_cfg_of mx)) cm_answer cm_init cs)
-  | CsIC cs => TrIC (model_trace ic_step ic_answer ic_init cs)
-  | CsSA mr ms mp now cs => TrSA mr ms mp now (model_trace (sa_step (sa_cfg_of mr ms mp now)) sa_answer sa_init cs)
+      let c := dm_cfg_of bs max mu in TrDocs bs max mu pre (model_trace (dm_lstep c) (lans (dm_answer c)) (dm_start c pre, 0%N) cs)
+  | CsCTI mt mi cs => TrCTI mt mi (model_trace (cti_lstep (cti_cfg_of mt mi)) (lans cti_answer) (cti_init, 0%N) cs)
+  | CsKeys mk mr cs => TrKeys mk mr (model_trace (ck_lstep (ck_cfg_of mk mr)) (lans ck_answer) (ck_init, 0%N) cs)
+  | CsIRS mc mm ml cs => TrIRS mc mm ml (model_trace (irs_lstep (irs_cfg_of mc mm ml)) (lans irs_answer) (irs_init, 0%N) cs)
+  | CsCM mx cs => TrCM mx (model_trace (cm_lstep (cm_cfg_of mx)) (lans cm_answer) (cm_init, 0%N) cs)
+  | CsIC cs => TrIC (model_trace ic_lstep (lans ic_answer) (ic_init, 0%N) cs)
+  | CsSA mr ms mp now cs =>
+      TrSA mr ms mp now (model_trace (sa_lstep (sa_cfg_of mr ms mp now)) (lans sa_answer) (sa_init, now) cs)
   end.
 
 (* well-formedness of a run: the fixture initial states of the two bucketed registries are
